@@ -595,7 +595,7 @@ class VN:
 RAISES = object()
 
 
-def path_values(prog, f, stmts=None, inline=0, skip=None, limit=64):
+def path_values(prog, f, stmts=None, inline=0, skip=None, limit=64, env=None):
     """
     every control-flow path through a function body made of assignments, if/elif/else, return and raise:
     list of (conditions, value) with conditions = [(test text, taken), ...] (a leading `not` is folded into `taken`; the conjuncts of a taken `and`
@@ -635,7 +635,7 @@ def path_values(prog, f, stmts=None, inline=0, skip=None, limit=64):
                 continue
             vn.stmt(st)
         out.append((conds, None))
-    run(list(stmts), {}, [])
+    run(list(stmts), dict(env or {}), [])
     return out
 
 
